@@ -39,7 +39,7 @@ class ProgramData:
         self.all_fns = {}
         for fn in self.fn_nodes.values():
             fs = anno.getanno(fn, annos.NodeAnno.ARGS_AND_BODY_SCOPE)
-            self.all_fns[an.nid(fn)] = {'is_lambda': isinstance(fn, ast.Lambda), 'read': an.vids(fs.read), 'bound': an.vids(fs.bound),
+            self.all_fns[an.nid(fn)] = {'parent': an.fn_parent(fn), 'is_lambda': isinstance(fn, ast.Lambda), 'read': an.vids(fs.read), 'bound': an.vids(fs.bound),
                                         'nonlocals': an.vids(fs.nonlocals), 'globals': an.vids(fs.globals), 'modified': an.vids(fs.modified)}
         for d in self.gd.values():
             for fid, f in self.all_fns.items():
@@ -47,6 +47,14 @@ class ProgramData:
             self.sets(d)
         QN = an.m['qual_names'].QN
         self._qn = QN
+        # Name nodes inside `except <type>:` expressions (evaluated while an exception is dispatched, by no CFG node)
+        self.except_type_names = set()
+        for fn in self.fn_nodes.values():
+            for n in ast.walk(fn):
+                if isinstance(n, ast.ExceptHandler) and n.type is not None:
+                    for m in ast.walk(n.type):
+                        if isinstance(m, ast.Name):
+                            self.except_type_names.add(an.nid(m))
 
     def sets(self, d):
         d['_edges'] = set(map(tuple, d['edges']))
@@ -110,6 +118,17 @@ class ActView:
             return
         self.steps, self.idx = repair(self.d, act.steps)
         self.nodes = [s['node'] for s in self.steps]
+        # An explicit exception that propagates through a `finally` body (or out of a handler) continues along a route the
+        # CFG does not contain; the properties set the effects of `finally` during propagation aside: the walk ends at the raise.
+        self.cut = len(self.steps)
+        for t in range(len(self.nodes) - 1):
+            if (self.nodes[t], self.nodes[t + 1]) not in self.d['_edges'] and self.d['info'][self.nodes[t]]['kind'] == 'Raise':
+                self.cut = t + 1
+                break
+        self.truncated = self.cut < len(self.steps)
+        if self.truncated:
+            self.steps = self.steps[:self.cut]
+            self.nodes = self.nodes[:self.cut]
         self.is_path = all((a, b) in self.d['_edges'] for a, b in zip(self.nodes, self.nodes[1:]))
 
     def lean_steps(self):
@@ -154,6 +173,9 @@ def c06_observations(pd, tracer, stats):
             var, ctx, cfg, pairs, gfid = nd
             if ctx != 'Load':
                 continue
+            if view is not None and view.ok and view.idx[k] >= view.cut:
+                stats['reads_after_propagation_through_finally'] += 1
+                continue
             stats['reads'] += 1
             if fs.is_lambda:
                 stats['reads_in_lambda'] += 1
@@ -193,6 +215,8 @@ def c06_observations(pd, tracer, stats):
         owned = fs.bound
         for k_old in range(1, len(act.steps)):
             k = view.idx[k_old]
+            if k >= view.cut:
+                break
             nk, nprev = view.nodes[k], view.nodes[k - 1]
             for sid, s in d['stmts'].items():
                 if s['defined_in'] is None or nk not in s['_inside'] or nprev in s['_inside']:
@@ -230,12 +254,15 @@ def c07_observations(pd, tracer, stats):
         d = view.d
         lin, lout = d['_lin'], d['_lout']
         seen = set()
-        for (i0_old, j_old, name, reader) in act.live_obs:
+        for (i0_old, j_old, name, reader, name_id) in act.live_obs:
             v = pd.vid(name)
             if v is None:
                 continue
             j = view.idx[j_old]
             i0 = view.idx[i0_old]
+            if j >= view.cut:
+                stats['reads_after_propagation_through_finally'] += 1
+                continue
             stats['reads'] += 1
             if reader is not None:
                 stats['closure_reads'] += 1
@@ -265,5 +292,6 @@ def c07_observations(pd, tracer, stats):
                     bad.append('LIVE_VARS_IN(stmt %d)' % nn)
                 if bad:
                     yield {'kind': 'live', 'act': act, 'view': view, 'name': name, 'i': i, 'j': j, 'var': v, 'reader': reader,
+                           'where': 'except_type' if name_id in pd.except_type_names else None,
                            'detail': 'value of %r in place after step %d (node %d) is read at step %d (node %d)%s but is missing from %s' % (
                                name, i, ni, j, view.nodes[j], '' if reader is None else ' by nested function %d' % reader, ', '.join(bad))}
